@@ -445,6 +445,12 @@ func (p *Packer) Unpack(r io.Reader, dst string) error {
 		}
 
 		if info.IsDirectory() {
+			// Create the directory itself; an empty directory has no later
+			// entry that would create it as a parent.
+			if err := os.MkdirAll(info.Path, 0755); err != nil {
+				return fmt.Errorf("failed to create directory %q: %w", info.Path, err)
+			}
+
 			// Restore directory info after all files are extracted because
 			// the extraction process changes directory's timestamps.
 			directoriesExtracted = append(directoriesExtracted, info)
